@@ -267,22 +267,160 @@ def same_outcome_eq(ref, got):
     return loosely_equal(ref[1], got[1])
 
 
+
+# ---- T-gen tie: the table regenerated from the source of the evaluator ------------------------------
+
+def extract(ctx=None):
+    """lean/PV/Generated/Evaluator.lean from the live source (extract/evaluator.py)"""
+    from extract.evaluator import extract_evaluator
+    return extract_evaluator(ctx)
+
+
+class _Reached(Exception):
+    pass
+
+
+def real_dispatch(obj, cached):
+    """Which handler the REAL dispatch of the (plain / cached) evaluator reaches for `obj`: every
+    `map_*` handler is replaced by a stub that reports its name (map_foreign is kept: it is part of
+    the dispatch)."""
+    from pymbolic.mapper import UnsupportedExpressionError
+    from pymbolic.mapper.evaluator import CachedEvaluationMapper, EvaluationMapper
+    base = CachedEvaluationMapper if cached else EvaluationMapper
+
+    def stub(name):
+        def handler(self, expr, *args, **kwargs):
+            raise _Reached(name)
+        return handler
+    probe = type("Probe", (base,), {n: stub(n) for n in dir(base)
+                                    if n.startswith("map_") and n != "map_foreign"})
+    try:
+        probe({})(obj)
+    except _Reached as r:
+        return f"(handler {r.args[0]})"
+    except UnsupportedExpressionError:
+        return "(unsupported)"
+    except Exception as ex:
+        return f"(foreign-error {type(ex).__name__})"
+    return "(returned)"
+
+
+DISPATCH_SAMPLES = [
+    '(Var "x")', '(Sum (Var "x") (Int 1))', '(Product (Var "x") (Int 2))',
+    '(BitwiseOr (Var "x") (Int 1))', '(BitwiseXor (Var "x") (Int 1))',
+    '(BitwiseAnd (Var "x") (Int 1))', '(LogicalOr (Var "x") (Int 1))',
+    '(LogicalAnd (Var "x") (Int 1))', '(Min (Var "x") (Int 1))', '(Max (Var "x") (Int 1))',
+    '(Quotient (Var "x") (Int 2))', '(FloorDiv (Var "x") (Int 2))', '(Remainder (Var "x") (Int 2))',
+    '(Power (Var "x") (Int 2))', '(LeftShift (Var "x") (Int 2))', '(RightShift (Var "x") (Int 2))',
+    '(BitwiseNot (Var "x"))', '(LogicalNot (Var "x"))', '(Comparison (Var "x") "<" (Int 2))',
+    '(If (Var "x") (Int 1) (Int 2))', '(Call (Var "f") ((Var "x")))',
+    '(CallKw (Var "f") ((Var "x")) ("k") ((Int 1)))', '(Subscript (Var "x") (Int 0))',
+    '(Lookup (Var "x") "a")', '(CSE (Var "x") nil "s")',
+    '(Substitution (Var "x") ("x") ((Int 1)))', '(Derivative (Var "x") ("x"))',
+    '(Slice (Int 1) (Int 2))', '(NaN)', '(Wildcard)', '(DotWildcard "a")', '(StarWildcard "a")',
+    '(FunctionSymbol)',
+    '(Int 3)', '(Bool true)', '(Flt "0.5" 1 2)', '(Str "s")', 'nil',
+    '(Tuple (Int 1) (Var "x"))', '(List (Int 1) (Var "x"))', '(Tuple)', '(List)',
+]
+
+
+class TableDispatchStream(Stream):
+    """T-gen tie, dispatch half: the handler the regenerated table (class -> handler reached,
+    `map_foreign` rules, constant kinds) assigns to an object of every node class / foreign kind of
+    the IR, against the handler the real dispatch of both mapper classes reaches."""
+    name = "table-dispatch"
+
+    def cases(self, rng, tier):
+        for sx in DISPATCH_SAMPLES:
+            for cached in (False, True):
+                if cached and sx.startswith("(List"):
+                    continue    # the cache key is hashed before the dispatch (known finding)
+                yield {"expr": sx, "cached": cached}
+
+    def request(self, pl):
+        return f"(c02-dispatch {pl['expr']})"
+
+    def run_impl(self, pl):
+        return real_dispatch(sx_to_expr(loads(pl["expr"])), pl["cached"])
+
+    def nontrivial_key(self, pl, model, impl):
+        return pl["expr"].split(" ")[0] + str(pl["cached"])
+
+
+class TableEvalStream(Stream):
+    """T-gen tie, meaning half: the TABLE INTERPRETER (`c02EvalT`, compiled) run on the table
+    regenerated from the source, against the real evaluator, on histories of calls on one mapper
+    instance (plain and cached) and on single evaluations through the four entry points.  The Lean
+    theorem `evalNode_eq_table_current` says this interpreter is the hand-written model; this
+    stream checks the same thing from the other side, on the compiled artefacts."""
+    name = "table-eval"
+
+    def __init__(self):
+        self._hist = HistStream()
+        self._den = DenStream()
+
+    def cases(self, rng, tier):
+        import itertools
+        n_h, n_d = (120, 1200) if tier == "quick" else (1500, 15000)
+        for pl in itertools.islice(self._hist.cases(random.Random(rng.random()), "quick"
+                                                    if tier == "quick" else "thorough"), n_h):
+            yield {"kind": "hist", **pl}
+        g = ExprGen(rng, cse=0.15)
+        for i in range(n_d):
+            ctx = rng.choice(["num", "num", "int", "bool", "any"])
+            e = g.gen(ctx, rng.randint(1, 5))
+            env = rand_env(rng, big=(i % 7 == 0))
+            if not is_safe(e, env):
+                continue
+            yield {"kind": "den", "expr": dumps(expr_to_sx(e)), "env": dumps(env_to_sx(env)),
+                   "variant": VARIANTS[i % 4]}
+
+    def request(self, pl):
+        if pl["kind"] == "hist":
+            c = "true" if pl["cached"] else "false"
+            return f"(c02-evalhist {c} {pl['env']} ({' '.join(pl['exprs'])}))"
+        c = "false" if pl["variant"] == "plain" else "true"
+        return f"(c02-evalhist {c} {pl['env']} ({pl['expr']}))"
+
+    def run_impl(self, pl):
+        if pl["kind"] == "hist":
+            return self._hist.run_impl(pl)
+        return "(" + self._den.run_impl(pl) + ")"
+
+    def nontrivial_key(self, pl, model, impl):
+        if pl["kind"] == "hist":
+            return self._hist.nontrivial_key(pl, model, impl)
+        return self._den.nontrivial_key(pl, model, impl)
+
+    def stats(self, pl, mo, io, acc):
+        acc[pl["kind"]] = acc.get(pl["kind"], 0) + 1
+
+
 PROP = Prop(
     id="C02",
     title="Evaluation gives every node type its standard meaning",
-    lean_targets=["PV.Properties.C02"],
-    streams=[PyNumStream(), DenStream(), HistStream()],
+    lean_targets=["PV.Properties.C02", "PV.Properties.C02Table"],
+    extractors=[extract],
+    streams=[PyNumStream(), DenStream(), HistStream(), TableDispatchStream(), TableEvalStream()],
     trusted_base=[
         "Lean 4.33 kernel; axioms propext, Classical.choice, Quot.sound only",
         "PyNum (lean/PV/Model/PyNum.lean): model of CPython int/bool/Fraction arithmetic, "
         "validated on every run by the exhaustive pynum-box stream against CPython",
         "harness/sexp.py serialisation and harness/props/c02.py correspondence",
+        "extract/evaluator.py: the reader of the handler source text (inspect + ast) and the "
+        "meaning lean/PV/Model/EvalTable.lean gives to the handler language (both exercised by the "
+        "table-eval / table-dispatch streams against the real evaluator)",
         "floats/complex are outside the exact model (model abstains); numpy arrays not modelled",
     ],
     level_text="Lean theorems (unbounded in tree depth, arity and history length): the evaluator as "
                "coded, plain or memoizing, with its CSE cache, returns exactly the compositional "
                "denotation `den` (value or error) after any history of calls; conditionals are "
-               "branch-lazy; unknown variables are named. The model is tied to the code by an "
+               "branch-lazy; unknown variables are named. The hand-written model is proved equal "
+               "(evalNode_eq_table_current, all nodes/environments/states) to a table interpreter "
+               "run on the handler table REGENERATED on every run from the source text of "
+               "EvaluationMapper / CSECachingMapperMixin / CachedMapper.__call__ (operators, operand "
+               "order, fold start values, lazy branches, call order, caches are read from the "
+               "source). The model is tied to the code by an "
                "exhaustive CPython operator box and by ~27k random/exhaustive-small evaluations "
                "per quick run through all four entry points.",
     level_note="Trusted: Lean kernel (+ propext, Classical.choice, Quot.sound); PyNum as a model of "
